@@ -1342,6 +1342,7 @@ func main() {
 	afiles := ParseDir(repo + "/app/evmante")
 	printSenderBalanceCheck(kfiles, afiles)
 	printFeeCapFloor(afiles)
+	printStdPrecompiles(ParseDir(repo + "/x/evm/precompile"))
 	fmt.Println("(* journal entry types: name, fields, what Dirtied() returns *)")
 	fmt.Println("Definition c03_entry_types : list (string * list string * string) := [")
 	for i, j := range jts {
